@@ -3,6 +3,7 @@ package props
 import (
 	"bytes"
 	"fmt"
+	"os"
 	"time"
 
 	"pgregory.net/rapid"
@@ -128,6 +129,15 @@ func (s *Sess) syncDraws() {
 
 func (s *Sess) onCall(c *sim.Call) {
 	s.syncDraws()
+	if os.Getenv("VERIF_DEBUG") != "" {
+		var ts []string
+		for _, m := range c.Out {
+			t, v := typeOf(m)
+			ts = append(ts, fmt.Sprintf("%02x/v%d/%d", t, v, len(m)))
+		}
+		it, iv := typeOf(c.In)
+		fmt.Printf("DBG %s.%s in=%02x/v%d/%d err=%v out=%v enc %v->%v sec=%v\n", s.W.P[c.Who].Name, c.Name, it, iv, len(c.In), c.Err, ts, c.EncBef, c.EncAft, c.NewSec(s.W.P[c.Who]))
+	}
 	if s.byWire == nil {
 		s.byWire = map[*sim.Wire]wireRef{}
 	}
